@@ -157,7 +157,11 @@ def run_check(prop: str, tier: str, rule_fn: RuleFn, meta: Dict[str, Any],
     known_keys = {k["key"]: k for k in known}
     new: List[Finding] = []
     hit: List[Tuple[Finding, Dict[str, Any]]] = []
+    seen_keys: set = set()
     for f in chk.findings:
+        if f.key in seen_keys:
+            continue    # same construct at several lines: report once
+        seen_keys.add(f.key)
         if f.key in known_keys:
             hit.append((f, known_keys[f.key]))
         else:
